@@ -12,6 +12,9 @@ pub enum PingFault {
     /// echo the value of the previous PING seen on this server instead
     Stale,
     Wrong,
+    /// something that is not the value at all: 0 = nil, 1 = empty string, 2 = an array holding the value,
+    /// 3 = the value followed by a second, unrequested reply
+    Shape(u8),
     /// an error reply with one of the error codes redis-rs knows (index into ERROR_REPLIES)
     ErrorCode(u8),
     /// a value that merely looks like the one sent: "07", "+7", "7 ", " 7", "7.0" for "7"
@@ -194,6 +197,17 @@ async fn serve(mut s: TcpStream, k: usize, st: Arc<Mutex<RConn>>, server: Arc<RS
                                 _ => format!("{}.0", v),
                             };
                             out.extend(bulk(&l))
+                        }
+                        Some(PingFault::Shape(k)) => {
+                            let v = val.clone().unwrap_or_default();
+                            match k % 3 {
+                                0 => out.extend(b"$-1\r\n"),
+                                1 => out.extend(bulk("")),
+                                _ => {
+                                    out.extend(b"*1\r\n");
+                                    out.extend(bulk(&v));
+                                }
+                            }
                         }
                         Some(PingFault::Error) => out.extend(b"-ERR scripted failure\r\n"),
                         Some(PingFault::ErrorCode(k)) => out.extend(format!("-{}\r\n", ERROR_REPLIES[k as usize % ERROR_REPLIES.len()]).as_bytes()),
